@@ -139,3 +139,10 @@ def c12_6(ctx, r):
     from .c05 import poll_before_collect
 
     poll_before_collect(ctx, r, "C12.6")
+
+
+@rule(P, "C12.7", "T1", "the persisted active-batch list is rewritten whenever it changed", min_obligations=1)
+def c12_7(ctx, r):
+    from .c05 import ids_persisted_when_changed
+
+    ids_persisted_when_changed(ctx, r, "C12.7")
